@@ -89,11 +89,12 @@ class SymEval:
         return v
 
     # -- entry -----------------------------------------------------------------
-    def run(self, fi, args, flags=None, depth=0):
+    def run(self, fi, args, flags=None, depth=0, pins=None):
         """evaluate function fi with argument values; returns the returned value
         (tuple for tuple returns; guarded returns are merged into Piecewise)"""
         flags = dict(flags or {})
         env = Env(self, fi, fi.module, dict(args), flags, depth=depth)
+        env.pins = dict(pins or {})
         # defaults
         for p in fi.params:
             pn = p.lstrip("*")
@@ -123,6 +124,7 @@ class Env:
         self.depth = depth
         self.result = None
         self.param_updates = {}
+        self.pins = {}
 
     def where(self, node):
         return self.fi.where(node) if self.fi else "%s:%s" % (self.mod.relpath, getattr(node, "lineno", "?"))
@@ -312,11 +314,16 @@ class Env:
             if v.is_number:
                 return bool(v != 0)
             return sp.Ne(v, 0)
+        if isinstance(v, Opaque):
+            # a test the term domain cannot see into: an uninterpreted boolean (both arms are explored and merged)
+            return sp.Symbol("B_" + "".join(ch if ch.isalnum() else "_" for ch in txt)[:40])
         raise Unsupported("symx: cannot decide test `%s` at %s" % (txt, self.where(t)))
 
     # ---- assignment -----------------------------------------------------------
     def assign(self, t, v, st):
         if isinstance(t, ast.Name):
+            if t.id in self.pins:
+                return
             self.vars[t.id] = v
         elif isinstance(t, (ast.Tuple, ast.List)):
             if isinstance(v, Mask) and len(t.elts) == 1:
@@ -370,6 +377,8 @@ class Env:
                 return _num(v)
             return v
         if isinstance(e, ast.Name):
+            if e.id in self.pins:
+                return self.pins[e.id]
             if e.id in self.vars:
                 return self.vars[e.id]
             if e.id in self.flags:
